@@ -34,7 +34,7 @@ ASSUMPTIONS = [
     "rows have positive length and are sorted by time; chunk sequences obey the laws of chunking",
     "oracles in vf/mon/chunklaws.py (latest clean cut computed by brute force over candidate times)",
 ]
-REQUIRED = {"split": 5000, "concatenate": 500, "merge": 200, "rechunk_streams": 300, "rejections": 100,
+REQUIRED = {"constructor": 2000, "split": 5000, "concatenate": 500, "merge": 200, "rechunk_streams": 300, "rejections": 100,
             "cannot_split_seen": 100, "early_split_moved": 100, "subrun_splits": 100}
 UNIT_TIMEOUT = 1500
 
@@ -126,6 +126,31 @@ def check_subrun_split(acc, rows, start, end, t, subruns, case):
             errs.append(f"concatenate(split(c)) raised {e!r}")
     if errs:
         acc.viol("split(subruns)", errs, case)
+
+
+# ------------------------------------------------------------------ constructor
+def check_constructor(acc, rows, enc, start, end):
+    """Chunk() must accept exactly the row sets lying inside [start, end) (<= 500 rows, sorted by time)."""
+    data = arr(rows, enc, extra=[("id", np.int32, list(range(len(rows))))])
+    inside = all(start <= s and e <= end for s, e in rows)
+    valid = inside and 0 <= start <= end
+    acc.evaluations += 1
+    try:
+        mkchunk(data, start, end)
+        ok = True
+    except ValueError:
+        ok = False
+    except Exception as e:  # noqa: BLE001
+        acc.viol("constructor", [f"unexpected exception {e!r}"], {"rows": rows, "enc": enc, "start": start, "end": end}, e)
+        return
+    acc.count("constructor")
+    if ok != valid:
+        acc.count("constructor_mismatch")
+        acc.viol("constructor", [f"Chunk([{start},{end})) with rows {rows} was {'accepted' if ok else 'rejected'}; "
+                                 f"rows inside the range: {inside}"],
+                 {"rows": rows, "enc": enc, "start": start, "end": end, "op": "constructor"})
+    elif not valid:
+        acc.count("rejections")
 
 
 # ------------------------------------------------------------------ concatenate / merge
@@ -259,6 +284,26 @@ def run_rechunker(acc, rows, cuts, target_rows, case, run_id="0", subruns_for=No
         acc.count("rechunk_out_chunks", st.n_out)
 
 
+def gen_nested_rows(rng, n):
+    """One long row covering later short rows that are more than the split threshold apart (so the gap to
+    the *previous row's end* is large although the running maximum end time says there is no gap)."""
+    t0 = rng.randint(0, 3) * 100
+    rows = []
+    t = t0
+    for _ in range(rng.randint(1, 2)):
+        inner = rng.randint(2, max(2, n))
+        span = inner * 1500 + 500
+        rows.append((t, t + span))
+        ti = t + rng.choice([0, 100])
+        for _ in range(inner):
+            rows.append((ti, ti + rng.choice([100, 200])))
+            ti += rng.choice([1100, 1300, 1500])
+        t += span + rng.choice([0, 400, 1200, 3000])
+        rows.append((t, t + 200))
+        t += 200 + rng.choice([0, 1200])
+    return sorted(rows)
+
+
 def gen_coarse_rows(rng, n):
     rows = []
     t = rng.randint(0, 3) * 100
@@ -284,6 +329,7 @@ def units(tier, seed):
     us.append({"name": "split-bc", "fam": "split", "n": 3, "G": 5 if q else 6, "shard": 0, "nshards": 1, "boundscheck": True})
     us.append({"name": "split-bc-n2", "fam": "split", "n": 2, "G": 6, "shard": 0, "nshards": 1, "boundscheck": True})
     us.append({"name": "concat", "fam": "concat", "n": 3, "G": 5 if q else 6})
+    us.append({"name": "ctor", "fam": "ctor", "n": 3, "G": 5 if q else 6})
     for k in range(4 if q else 16):
         us.append({"name": f"rechunk-{k}", "fam": "rechunk", "seed": seed * 1000 + k, "n": 40 if q else 150})
     for k in range(2 if q else 6):
@@ -332,11 +378,22 @@ def run_unit(u):
                             if n:
                                 acc.distinct += 1
         acc.samples.append({"op": "concatenate/merge", "rows": [(0, 2), (2, 3)], "cuts": [0, 2, 2, 3]})
+    elif fam == "ctor":
+        ivs = all_intervals(u["G"])
+        for n in range(1, u["n"] + 1):
+            for rows in sorted_lists(n, ivs):
+                for enc in ("endtime", "dt"):
+                    for start in range(0, 3):
+                        for end in range(max(start, 1), u["G"] + 1):
+                            check_constructor(acc, rows, enc, start, end)
+                acc.distinct += 1
+        acc.samples.append({"op": "constructor", "rows": [(0, 5), (1, 2)], "start": 0, "end": 3})
     elif fam == "rechunk":
         rng = random.Random(u["seed"])
         for i in range(u["n"]):
             n = rng.randint(1, 8)
-            rows = gen_coarse_rows(rng, n)
+            rows = gen_coarse_rows(rng, n) if i % 3 else gen_nested_rows(rng, rng.randint(2, 4))
+            n = len(rows)
             lo = rng.choice([0, rows[0][0]])
             hi = max(e for _, e in rows) + rng.choice([0, 500, 2000])
             legal = [c for c in legal_cuts(rows, lo, hi, 100) if lo < c < hi]
@@ -415,6 +472,8 @@ def replay(case):
         check_concat_merge(acc, rows, case["enc"], case["cuts"], case)
     elif op == "rechunk":
         run_rechunker(acc, rows, case["cuts"], case["target_rows"], case)
+    elif op == "constructor":
+        check_constructor(acc, rows, case["enc"], case["start"], case["end"])
     return acc.violations
 
 
